@@ -68,6 +68,8 @@ class LamV(Val):
     """A lambda expression together with the values of the enclosing frame at its creation (snapshot closure)."""
     key: int                                    # id of the ast.Lambda node (resolved through Interp.lambdas)
     captured: Tuple[Tuple[str, Any], ...] = ()
+    defaults: Tuple[Any, ...] = ()              # parameter defaults, evaluated when the function object is created
+    depth: int = 0                              # stack depth of the defining frame (late binding while that frame is alive)
 
 
 @dataclass(frozen=True)
@@ -346,6 +348,11 @@ class State:
                 return 'U'
             if t is LenV:
                 return ('L', mapping[v.sym] if v.sym in mapping else skey(v.sym))
+            if t is LamV:
+                return ('Lam', v.key, tuple([(n, vkey(x)) for n, x in v.captured]), tuple([vkey(x) for x in v.defaults]), v.depth)
+            if t is PartV:
+                return ('P', v.kind, vkey(v.func) if v.func is not None else None, tuple([vkey(x) for x in v.args]),
+                        tuple([(k, vkey(x)) for k, x in v.kwargs]))
             return v
 
         def okey(o):
